@@ -59,18 +59,20 @@ def returned(sig):
     return [f"p{j}" for j, p in enumerate(sig, 1) if p["k"] != "bs"]
 
 
-def hy_call(call):
+def hy_call(call, style=0):
+    """style 1: every argument value is a form that needs statements (the call has to hoist them)"""
+    w = (lambda v, i: f"(do (setv hyv-t{i} {v}) hyv-t{i})") if style else (lambda v, i: v)
     out = []
     for i, it in enumerate(call, 1):
         t = it["t"]
         if t == "pos":
-            out.append(str(10 * i))
+            out.append(w(str(10 * i), i))
         elif t == "kw":
-            out.append(f":{it['name']} {10 * i}")
+            out.append(f":{it['name']} {w(10 * i, i)}")
         elif t == "star":
-            out.append("#* [" + " ".join(str(10 * i + j) for j in range(1, it["len"] + 1)) + "]")
+            out.append("#* " + w("[" + " ".join(str(10 * i + j) for j in range(1, it["len"] + 1)) + "]", i))
         else:
-            out.append("#** {" + "  ".join(f'"{n}" {10 * i + j}' for j, n in enumerate(it["names"], 1)) + "}")
+            out.append("#** " + w("{" + "  ".join(f'"{n}" {10 * i + j}' for j, n in enumerate(it["names"], 1)) + "}", i))
     return "(f " + " ".join(out) + ")"
 
 
@@ -118,12 +120,16 @@ def run_group(job):
     exec(f"def f({py_sig(sig)}):\n    return {{{', '.join(repr(n) + ': ' + n for n in ret)}}}\n", ns)
     out = []
     for call in calls:
-        try:
-            h = hy.eval(hy.read(hy_call(call)), mod.__dict__, module=mod)
-        except (TypeError, SyntaxError):
-            h = "rejected"
-        except BaseException as x:
-            h = "other: " + repr(x)[:200]
+        hs = []
+        for style in (0, 1):
+            try:
+                h = hy.eval(hy.read(hy_call(call, style)), mod.__dict__, module=mod)
+            except (TypeError, SyntaxError):
+                h = "rejected"
+            except BaseException as x:
+                h = "other: " + repr(x)[:200]
+            hs.append(h)
+        h = hs[0] if hs[0] == hs[1] else f"with statement-producing argument values ({hy_call(call, 1)}): {hs[1]!r}; with constants: {hs[0]!r}"
         try:
             p = eval(py_call(call), ns)
         except (TypeError, SyntaxError):
@@ -280,7 +286,8 @@ def main(run):
     run.sample({"defn": f"(defn f [{hy_sig(jobs[len(jobs) // 2][0])}] ...)", "call": hy_call(jobs[len(jobs) // 2][1][-1])})
     return run.finish("model_checking",
                       "signatures (positional-only, ordinary, #* / bare *, keyword-only, #**, defaults) x calls (positional, "
-                      "keyword anywhere, #* lists, #** dicts): exhaustive for small bounds, random behaviours of the same spec up "
+                      "keyword anywhere, #* lists, #** dicts; every call once with constant argument values and once with "
+                      "values that need statements): exhaustive for small bounds, random behaviours of the same spec up "
                       "to 6 parameters and 5 call items; HyBind's binding is first checked against CPython's def, then Hy's "
                       "defn + call against it; plus docstring / implicit-return tables for fn, defn, async defn, generators",
                       extra=stats)
